@@ -187,7 +187,8 @@ def selectlt(table, field, value, complement=False):
     """Select rows where the given field is less than the given value."""
 
     value = Comparable(value)
-    return selectop(table, field, value, operator.lt, complement=complement)
+    return select(table, field, lambda v: operator.lt(Comparable(v), value),
+                  complement=complement)
 
 
 Table.selectlt = selectlt
@@ -199,7 +200,8 @@ def selectle(table, field, value, complement=False):
     value."""
 
     value = Comparable(value)
-    return selectop(table, field, value, operator.le, complement=complement)
+    return select(table, field, lambda v: operator.le(Comparable(v), value),
+                  complement=complement)
 
 
 Table.selectle = selectle
@@ -210,7 +212,8 @@ def selectgt(table, field, value, complement=False):
     """Select rows where the given field is greater than the given value."""
 
     value = Comparable(value)
-    return selectop(table, field, value, operator.gt, complement=complement)
+    return select(table, field, lambda v: operator.gt(Comparable(v), value),
+                  complement=complement)
 
 
 Table.selectgt = selectgt
@@ -222,7 +225,8 @@ def selectge(table, field, value, complement=False):
     value."""
 
     value = Comparable(value)
-    return selectop(table, field, value, operator.ge, complement=complement)
+    return select(table, field, lambda v: operator.ge(Comparable(v), value),
+                  complement=complement)
 
 
 Table.selectge = selectge
@@ -292,7 +296,7 @@ def selectrangeopenleft(table, field, minv, maxv, complement=False):
 
     minv = Comparable(minv)
     maxv = Comparable(maxv)
-    return select(table, field, lambda v: minv <= v < maxv,
+    return select(table, field, lambda v: minv <= Comparable(v) < maxv,
                   complement=complement)
 
 
@@ -305,7 +309,7 @@ def selectrangeopenright(table, field, minv, maxv, complement=False):
 
     minv = Comparable(minv)
     maxv = Comparable(maxv)
-    return select(table, field, lambda v: minv < v <= maxv,
+    return select(table, field, lambda v: minv < Comparable(v) <= maxv,
                   complement=complement)
 
 
@@ -318,7 +322,7 @@ def selectrangeopen(table, field, minv, maxv, complement=False):
 
     minv = Comparable(minv)
     maxv = Comparable(maxv)
-    return select(table, field, lambda v: minv <= v <= maxv,
+    return select(table, field, lambda v: minv <= Comparable(v) <= maxv,
                   complement=complement)
 
 
